@@ -90,16 +90,17 @@ def skeleton_hash():
     return _skeleton
 
 
-def e1_task(qual):
+def e1_task(arg):
     import contracts  # noqa
     from pyvc.run import verify
     from pyvc import source as SRC
+    qual, part = arg if isinstance(arg, tuple) else (arg, None)
     try:
         # verdict cache: same function text + same skeleton/contracts/generator => same VCs => same verdicts
         m, fn, cls = SRC.find_function(qual)
         key = None
         if fn is not None and os.environ.get('VERIF_NO_CACHE') != '1':
-            key = hashlib.sha256((qual + SRC.segment(m, fn) + skeleton_hash()
+            key = hashlib.sha256((qual + repr(part) + SRC.segment(m, fn) + skeleton_hash()
                                   + os.environ.get('VERIF_SMT_TIMEOUT_MS', '')).encode()).hexdigest()[:24]
             path = os.path.join(CACHE_DIR, 'e1-%s.json' % key)
             if os.path.exists(path):
@@ -107,7 +108,7 @@ def e1_task(qual):
                     r = json.load(fh)
                 r['cached'] = True
                 return r
-        r = verify(qual, timeout_ms=int(os.environ.get('VERIF_SMT_TIMEOUT_MS', '30000')))
+        r = verify(qual, timeout_ms=int(os.environ.get('VERIF_SMT_TIMEOUT_MS', '60000')), part=part)
         if key is not None and r['status'] == 'ok':
             os.makedirs(CACHE_DIR, exist_ok=True)
             tmp = path + '.%d.tmp' % os.getpid()
@@ -117,6 +118,34 @@ def e1_task(qual):
         return r
     except Exception:
         return {'qual': qual, 'status': 'error', 'reason': traceback.format_exc(), 'obligations': []}
+
+
+def e1_run(pool, quals):
+    """all functions, heavy ones split into parallel slices; results merged per function"""
+    import contracts  # noqa
+    from pyvc.contract import REGISTRY
+    tasks = []
+    for q in quals:
+        n = max(1, REGISTRY[q].slices)
+        tasks += [(q, (k, n)) if n > 1 else (q, None) for k in range(n)]
+    # heavy slices first
+    order = sorted(range(len(tasks)), key=lambda i: -REGISTRY[tasks[i][0]].slices)
+    res = pool.map(e1_task, [tasks[i] for i in order], chunksize=1)
+    by = {}
+    for r in res:
+        q = r['qual']
+        if q not in by:
+            by[q] = r
+        else:
+            b = by[q]
+            b['obligations'] = b.get('obligations', []) + r.get('obligations', [])
+            if r['status'] != 'ok':
+                b['status'], b['reason'] = r['status'], r.get('reason')
+            b.setdefault('models', {}).update(r.get('models', {}))
+            b['canary_pre'] = b.get('canary_pre', True) and r.get('canary_pre', True)
+            b['assumptions'] = sorted(set(b.get('assumptions', [])) | set(r.get('assumptions', [])))
+            b['wall'] = max(b.get('wall', 0), r.get('wall', 0))
+    return [by[q] for q in quals]
 
 
 def fuzz_task(args):
@@ -194,7 +223,7 @@ def run_e1(prop, pool, verdict, tier, seed):
     quals = [q for q, c in REGISTRY.items() if prop in c.properties and not c.trusted and c.e1]
     ledger = load_ledger()
     t0 = time.time()
-    results = pool.map(e1_task, quals, chunksize=1)
+    results = e1_run(pool, quals)
     info = {'functions': [], 'obligations': 0, 'discharged': 0, 'solver_s': 0.0, 'undecided': [], 'assumptions': set(),
             'samples': [], 'max_s': 0.0, 'unproved_termination': []}
     need_fuzz = []
@@ -324,7 +353,7 @@ def main():
         import contracts  # noqa
         from pyvc.contract import REGISTRY
         with mp.Pool(min(16, os.cpu_count() or 1)) as pool:
-            res = pool.map(e1_task, [q for q, c in REGISTRY.items() if not c.trusted and c.e1], chunksize=1)
+            res = e1_run(pool, [q for q, c in REGISTRY.items() if not c.trusted and c.e1])
         led = {}
         for r in res:
             led[r['qual']] = {o['name']: o['verdict'] for o in r['obligations']}
